@@ -168,8 +168,8 @@ theorem mkConcat_spec (σ : Var → Nat) (ts : List VExpr) (c : VExpr) (h : mkCo
     · exact (pure_ok.mp h).symm
     · cases h
 
-theorem newAxis_ok {k : Nat} {v : Option Nat} {r : Option (Nat × Bool)} {a : VExpr} (h : newAxis k v r = .ok a) :
-    ∃ m ub, r = some (m, ub) ∧ a = .axis (cseName k) v m := by
+theorem newAxis_ok {name : String} {v : Option Nat} {r : Option (Nat × Bool)} {a : VExpr} (h : newAxis name v r = .ok a) :
+    ∃ m ub, r = some (m, ub) ∧ a = .axis name v m := by
   unfold newAxis at h
   split at h
   · rename_i m ub
